@@ -4,10 +4,9 @@ fills seeded/<id>/meta.json detected_by and prints the markdown table for DESIGN
 import glob, json, os, re, sys
 root = sys.argv[1] if len(sys.argv) > 1 else '/tmp/mxv'
 rows = []
-for d in sorted(glob.glob(os.path.join(root, 'C*_*'))):
-    base = os.path.basename(d)
-    prop, k = base.split('_')
-    sid = f'{prop}-m{k}'
+for d in sorted(glob.glob(os.path.join(root, 'C*-*'))):
+    sid = os.path.basename(d)
+    prop = sid.split('-')[0]
     if not os.path.isdir(f'/verif/seeded/{sid}'):
         continue
     det = {}
